@@ -1248,6 +1248,7 @@ func (h *c19H) judge(cs *c19Case, o *c19Outcome) {
 }
 
 func runC19(c *kit.Ctx) {
+	c19RealService(c) // the shared port of the real service (c19_service.go)
 	// The race runtime spends most of its time in contention when 16 shard processes each run 16 Ps:
 	// 4 Ps per shard give the same wall time at a third of the CPU and far fewer scheduler stalls.
 	procs := runtime.NumCPU()
